@@ -865,6 +865,31 @@ def run(seeds):
     return fails, n
 
 
+def _force_cancel_schedule():
+    """schedule injection for MpWriter.cancel(): sub-processes start 0.3 s late, the parent waits 1.5 s between emptying and
+    removing a '.tmp' storage directory; returns the function that removes the two delays again"""
+    import time
+    from whoosh import multiproc
+    from whoosh.filedb import filestore
+    parent = os.getpid()
+    clean0, run0 = filestore.FileStorage.clean, multiproc.SubWriterTask.run
+
+    def slow_clean(self, *a, **kw):
+        r = clean0(self, *a, **kw)
+        if os.getpid() == parent and self.folder.endswith(".tmp"):
+            time.sleep(1.5)
+        return r
+
+    def late_run(self):
+        time.sleep(0.3)
+        return run0(self)
+    filestore.FileStorage.clean, multiproc.SubWriterTask.run = slow_clean, late_run
+
+    def undo():
+        filestore.FileStorage.clean, multiproc.SubWriterTask.run = clean0, run0
+    return undo
+
+
 def check_mpwriter(fails_out):
     """C06/C08/C04 through the multi-process writer front-end (ix.writer(procs=2, batchsize=2)) and its serial twin:
     stored values, column values (incl. a column-only field), a grouped block staying adjacent and in order, and
@@ -947,18 +972,40 @@ def check_mpwriter(fails_out):
                 if hits != ["g0"]:
                     fails_out.append({"case": "C06-mpwriter-group", "detail": "writer front-end %s: NestedParent(kind:parent, body:(w2 AND bravo)) -> %r expected "
                                       "['g0'] (document order %r)" % (front, hits, order), "corpus": None})
-            # cancel: with and without additions; the lock must be free afterwards
-            for adds in (0, 3):
+            # cancel: with and without additions; cancel() must return, the lock must be free afterwards and the index
+            # unchanged. The third round forces the schedule in which a sub-process is still starting up while the
+            # parent removes the shared temp directory (child delayed 0.3 s, parent delayed 1.5 s between emptying and
+            # removing <index>.tmp): a cancel() that does not stop its sub-processes first raises OSError there with the
+            # write lock still held (fixed: 792c8db; seen once in ~240 unforced runs on a loaded machine)
+            for adds, forced in ((0, False), (3, False), (3, True)):
+                if forced and front != "procs":
+                    continue
+                undo = _force_cancel_schedule() if forced else None
                 w = mkw()
-                for i in range(adds):
-                    w.add_document(id="x%d" % i, kind="plain", body="zulu", n=1, col=b"x")
-                w.cancel()
+                try:
+                    for i in range(adds):
+                        w.add_document(id="x%d" % i, kind="plain", body="zulu", n=1, col=b"x")
+                    try:
+                        w.cancel()
+                    except Exception as e:
+                        fails_out.append({"case": "C04-mpwriter-cancel-raises", "detail": "writer front-end %s%s: cancel() of a writer with %d "
+                                          "added documents raised %s: %s | %s" % (front, " (forced schedule)" if forced else "", adds,
+                                                                                 type(e).__name__, e, traceback.format_exc()[-400:]),
+                                          "corpus": None})
+                finally:
+                    if undo:
+                        undo()
+                    for t in getattr(w, "tasks", []):
+                        # never leave a sub-process behind: an orphan blocked on the job queue would hang this harness at exit
+                        if hasattr(t, "terminate") and t.is_alive():
+                            t.terminate()
+                            t.join()
                 try:
                     w2 = ix.writer(timeout=0.5)
                     w2.cancel()
                 except LockError:
-                    fails_out.append({"case": "C04-mpwriter-cancel-lock", "detail": "writer front-end %s: after cancel() of a writer with %d added "
-                                      "documents the index is still locked" % (front, adds), "corpus": None})
+                    fails_out.append({"case": "C04-mpwriter-cancel-lock", "detail": "writer front-end %s%s: after cancel() of a writer with %d added "
+                                      "documents the index is still locked" % (front, " (forced schedule)" if forced else "", adds), "corpus": None})
                     break
                 with ix.searcher() as s_:
                     if s_.doc_count() != len(docs):
